@@ -1,7 +1,7 @@
 (* C04 — each client request is forwarded to the backend at most once.
    Statements only. *)
 From Coq Require Import String ZArith List Bool Lia.
-From IP Require Import Gen.SrcFacts_Agent Lib.Lru Proofs.LruProofs Server.ProxyCore Proofs.ProxyCoreProofs Agent.System Proofs.SystemProofs.
+From IP Require Import Gen.SrcFacts_Agent Gen.SrcFacts_Server Lib.Lru Proofs.LruProofs Server.ProxyCore Proofs.ProxyCoreProofs Agent.System Proofs.SystemProofs.
 Import ListNotations.
 
 Definition K_now : nat := Z.to_nat requestCacheLimit.
@@ -16,6 +16,15 @@ Print Assumptions C04_cache_limit.
 Theorem C04_dedup_is_lru : dedupConstructor = ["lru.New(requestCacheLimit)"%string] /\ dedupMethods = ["Get"%string; "Add"%string].
 Proof. split; reflexivity. Qed.
 Print Assumptions C04_dedup_is_lru.
+
+(* the IDs the agent's record is keyed by never repeat, also not across restarts of the proxy while the agent keeps
+   running (the generator is seeded from the clock; a counter would re-issue the IDs the agent has already seen, and
+   the agent would take the new requests for re-listings and never forward them) *)
+Theorem C04_ids_fresh_across_restarts :
+  idGeneratorSeed = ["rand.New(rand.NewSource(time.Now().UnixNano()))"%string] /\
+  newIDCallees = ["p.Lock"; "p.randGenerator.Int63"; "p.Unlock"; "sha256.Sum256"; "[]byte"; "fmt.Sprintf"; "fmt.Sprintf"]%string.
+Proof. split; reflexivity. Qed.
+Print Assumptions C04_ids_fresh_across_restarts.
 
 (* the bounded LRU is exactly the K most recently listed distinct IDs *)
 Theorem C04_lru_is_recency_prefix : forall K s R, NoDup R ->
